@@ -567,6 +567,7 @@ where
     if st.jcfg.tol > 0 then st := addBr st "tolerance"
     if st.jcfg.parents ≥ 3 then st := addBr st "three-parents"
     if nd.groups.length ≥ 2 then st := addBr st "several-groups"
+    if fin && !st.jOnDims.isEmpty then st := addBr st (if onOk then "on-pairing-oracle-evaluated" else "on-outside-claimed-domain")
     if fin then
       st := addBr st (if sets.isEmpty then "finish-nothing-buffered" else "finish-flushes")
       let r : RunRec := { cfg := st.jcfgText, seqs := seqsOf st.jcfg.parents st.jRaw, out := sortStrings obsAll }
